@@ -6,6 +6,8 @@ mod item;
 mod node;
 mod serde;
 mod serde_generate;
+#[cfg(crux_verif)]
+pub mod verif;
 
 use std::{
     collections::{BTreeMap, HashMap},
@@ -94,6 +96,9 @@ where
         previous.insert(crate_name, crate_);
     }
 
+    #[cfg(crux_verif)]
+    verif::capture_filter(&filter);
+
     Ok(format(filter.edge))
 }
 
@@ -101,6 +106,8 @@ fn format(edges: Vec<(ItemNode, ItemNode)>) -> Registry {
     let mut formatter = Formatter::default();
     formatter.edge = edges;
     formatter.run();
+    #[cfg(crux_verif)]
+    verif::capture_formatter(&formatter);
     debug!("{}", formatter.scc_times_summary());
 
     formatter.container.into_iter().collect()
